@@ -339,7 +339,8 @@ impl Printer {
             }
             Expr::Let(p, params, value, body) => {
                 self.out.push_str("let ");
-                self.out.push_str(&pat_text(p, false));
+                // `let Some x = ..` would define a function called Some
+                self.out.push_str(&pat_text(p, true));
                 for q in params {
                     self.out.push(' ');
                     self.out.push_str(&ident_text(q));
